@@ -155,6 +155,8 @@ theorem C04_fact_write_steps : Facts.disk_write_steps =
     ["Openat(tmpname)", "writeAll", "Close", "Renameat(tmpname->filename)", "Unlinkat(tmpname) on error"] := by decide
 theorem C04_fact_write_loop : Facts.disk_write_loop = ["for len(data) > 0", "n, werr := unix.Write(fd, data)", "data = data[n:]"] := by decide
 theorem C04_fact_temp_suffix : Facts.disk_temp_suffix = [".tmp"] := by decide
+/-- the temporary name is the final name plus the suffix (`Name.temp n` in the model): writers of different chunks never share it -/
+theorem C04_fact_temp_name : Facts.disk_temp_name = ["filename + TempFileSuffix"] := by decide
 /-- both matchers are suffix tests on the chunk id suffixes `.ff` / `.dd` -/
 theorem C04_fact_matchers : Facts.disk_matchers = ["strings.HasSuffix(chunkID, chunkIDSuffix)", "strings.HasSuffix(chunkID, chunkIDSuffix)"] ∧
     Facts.pack_id_suffixes = [".ff", ".dd"] := by decide
